@@ -108,10 +108,26 @@ class FlowRun(object):
     self.low = int(math.ceil(mx * 0.95))
     # pre-fill (unscheduled) so that the interesting part of the run is short
     vid = 1000
+    if self.cfg.get('zero_dups'):
+      # history: five rounds of idle counters (value 0, every datapoint sent twice) stored and written out completely
+      for rnd in range(5):
+        for m, n in self.cfg.get('prefill', ()):
+          for t in range(n):
+            self.cache.store(m, (float(50 + t), 0.0))
+            self.cache.store(m, (float(50 + t), 0.0))
+        k = 0
+        while len(self.cache) and k < 50:
+          self.cache.drain_metric()
+          k += 1
     for m, n in self.cfg.get('prefill', ()):
       for t in range(n):
         vid += 1
-        self.cache.store(m, (float(100 + t), float(vid)))
+        if self.cfg.get('zero_dups'):
+          # idle counters: the value is 0, and every datapoint is sent twice (a duplicate does not grow the cache)
+          self.cache.store(m, (float(100 + t), 0.0))
+          self.cache.store(m, (float(100 + t), 0.0))
+        else:
+          self.cache.store(m, (float(100 + t), float(vid)))
     self.sched.on_point = self.observe
     self.observe('main', 'init', force=True)
 
@@ -194,6 +210,8 @@ class FlowRun(object):
       self.observe('main', 'end', force=True)
       e = dict(k='end', low=self.low)
       e.update(self.snapshot())
+      # at quiescence the property speaks about what the cache HOLDS (its own counter is C02's business)
+      e['size'] = sum(len(v) for v in dict.values(self.cache))
       self.ev.append(e)
     finally:
       self.teardown()
